@@ -86,6 +86,9 @@ def display_value(e, v, ty, f, debug=False):
 
 def opaque_display(e, d, debug):
     p = d.payload
+    if d.kind == 'Version':
+        from .models_ext import version_display
+        return version_display(e, d)
     if isinstance(p, Str): return list(p.chars)
     raise Unsupported('display of opaque ' + d.kind)
 
@@ -129,7 +132,7 @@ def write_args(e, f, args):
 def _(e, c, a, raw):
     t = e.deref(a[0]); args = e.deref(a[1])
     return Arguments(list(t.slots), list(args.slots))
-@model('Arguments::from_str', 'core::fmt::Arguments::from_str', 'Arguments::new_const', 'core::fmt::rt::<impl Arguments<\'_>>::new_const')
+@model('Arguments::from_str', 'Arguments::from_str_nonconst', 'core::fmt::Arguments::from_str', 'Arguments::new_const', 'core::fmt::rt::<impl Arguments<\'_>>::new_const')
 def _(e, c, a, raw):
     v = e.deref(a[0])
     if isinstance(v, Str): return Arguments(v, [])
